@@ -1129,11 +1129,74 @@ Theorem round_trip_rest :
   dims2 (m_am M) (length sl) (length al) /\
   length (m_s0 (to_matrices m' sl al)) = length (m_s0 M).
 Proof.
-  repeat split; try reflexivity; simpl;
-    try apply transition_matrix_dims; try apply reward_matrix_dims; try apply action_matrix_dims;
-    try (intros; apply transition_matrix_dims; assumption);
-    try (intros; apply reward_matrix_dims; assumption).
-  unfold initial_state_vec. rewrite !map_length. reflexivity.
+  split; [reflexivity |]. split; [reflexivity |]. split; [reflexivity |].
+  split; [apply transition_matrix_dims |]. split; [apply transition_matrix_dims |].
+  split; [apply reward_matrix_dims |]. split; [apply reward_matrix_dims |].
+  split; [apply action_matrix_dims |]. split; [apply action_matrix_dims |].
+  unfold M. simpl. unfold initial_state_vec. rewrite !map_length. reflexivity.
 Qed.
 
 End RoundTrip.
+
+(* ------------------------------------------------------------------ *)
+(* non-vacuity: a concrete MDP satisfying every hypothesis used above  *)
+(* ------------------------------------------------------------------ *)
+(* 3 states, 2 actions, state-dependent action sets, a zero-probability successor, a
+   zero-probability initial entry, an explicit absorbing state *)
+Definition ex_mdp : fmdp :=
+  mkF [(O, 1 # 2); (1%nat, 1 # 2); (2%nat, 0)]
+      (fun s => match s with O => [O; 1%nat] | _ => [1%nat] end)
+      (fun s a => match s, a with
+                  | O, O => [(1%nat, 1 # 2); (2%nat, 1 # 2)]
+                  | O, _ => [(O, 1); (2%nat, 0)]
+                  | S O, _ => [(1%nat, 1)]
+                  | _, _ => [(2%nat, 1)]
+                  end)
+      (fun s a ns => match s, a, ns with O, O, S (S O) => 3 # 4 | O, S O, S (S O) => 5 | _, _, _ => (-1) # 4 end)
+      (fun s => Nat.eqb s 2)
+      (9 # 10).
+Definition ex_U : list nat := [O; 1%nat; 2%nat].
+
+Example ex_fin : forall s, Reach ex_mdp s -> In s ex_U.
+Proof.
+  intros s H. induction H as [s Hs | s e Hr IH Hex He Hp].
+  - vm_compute in Hs. unfold ex_U. simpl. tauto.
+  - unfold ex_U in *. simpl in IH.
+    destruct IH as [<- | [<- | [<- | []]]]; vm_compute in He;
+      repeat (destruct He as [<- | He]; [simpl; tauto |]); destruct He.
+Qed.
+Example ex_fuel : enough_fuel ex_U 7. Proof. unfold enough_fuel. simpl. lia. Qed.
+Example ex_keys : forall s a, NoDup (map fst (fnext ex_mdp s a)).
+Proof.
+  intros s a. destruct s as [| [| s]]; destruct a as [| a]; simpl;
+    repeat (constructor; [simpl; intuition discriminate |]); constructor.
+Qed.
+Example ex_nonneg : forall s a e, In e (fnext ex_mdp s a) -> 0 <= snd e.
+Proof.
+  intros s a e H. destruct s as [| [| s]]; destruct a as [| a]; simpl in H;
+    repeat (destruct H as [<- | H]; [simpl; discriminate |]); destruct H.
+Qed.
+Example ex_init_nonneg : forall e, In e (finit ex_mdp) -> 0 <= snd e.
+Proof. intros e H. simpl in H. repeat (destruct H as [<- | H]; [simpl; discriminate |]). destruct H. Qed.
+Example ex_nodup_sl : NoDup [2%nat; O; 1%nat].
+Proof. repeat (constructor; [simpl; intuition discriminate |]). constructor. Qed.
+Example ex_nodup_al : NoDup [1%nat; O].
+Proof. repeat (constructor; [simpl; intuition discriminate |]). constructor. Qed.
+
+(* the reachable set really has three members, found in different orders by different pops *)
+Example ex_reach_head : reachable ex_mdp pick_head None 7 = [O; 1%nat; 2%nat]. Proof. reflexivity. Qed.
+Example ex_reach_cut : reachable ex_mdp pick_last (Some 2%nat) 7 = [O; 1%nat]. Proof. reflexivity. Qed.
+Example ex_reach_all : forall pick s, In s (reachable ex_mdp pick None 7) <-> Reach ex_mdp s.
+Proof. intros pick s. apply (reachable_spec_thm ex_mdp ex_U ex_fin pick 7 ex_fuel). Qed.
+(* entries: an available action's row, an unavailable action's zero row, the reward kept
+   off the zero-probability successor *)
+Example ex_entries :
+  get3 (transition_matrix ex_mdp [2%nat; O; 1%nat] [1%nat; O]) 1 1 2 == 1 # 2 /\
+  get3 (transition_matrix ex_mdp [2%nat; O; 1%nat] [1%nat; O]) 2 1 2 == 0 /\
+  get3 (reward_matrix ex_mdp [2%nat; O; 1%nat] [1%nat; O]) 1 0 0 == 0 /\
+  get3 (reward_matrix ex_mdp [2%nat; O; 1%nat] [1%nat; O]) 1 1 0 == 3 # 4.
+Proof. vm_compute. repeat split; reflexivity. Qed.
+Example ex_round_trip : forall i j k, (i < 3)%nat -> (j < 2)%nat -> (k < 3)%nat ->
+  get3 (m_tf (to_matrices (from_matrices (to_matrices ex_mdp [2%nat; O; 1%nat] [1%nat; O])) [2%nat; O; 1%nat] [1%nat; O])) i j k
+  == get3 (m_tf (to_matrices ex_mdp [2%nat; O; 1%nat] [1%nat; O])) i j k.
+Proof. intros. apply (round_trip_tf ex_mdp _ _ ex_nodup_sl ex_nodup_al ex_keys ex_nonneg); assumption. Qed.
